@@ -102,3 +102,14 @@ def js_literal(rng, s, style=None, surrogate_escapes=False):
 def utf16_units(s):
     b = s.encode("utf-16-le", "surrogatepass")
     return [b[i] | (b[i + 1] << 8) for i in range(0, len(b), 2)]
+
+
+# (spelling in the QML source, string it denotes in ECMAScript).  A document may be rejected (qmluic supports a subset of the
+# escapes); if it is accepted the string read back from the .ui must be the denoted one.
+SPELLED_LITERALS = [
+    ('"Save changes \\\nbefore closing?"', "Save changes before closing?"),       # line continuation: contributes nothing
+    ('"a\\\r\nb"', "ab"), ('"a\\\rb"', "ab"), ("'x \\\n y'", "x  y"), ('"\\\n"', ""), ('"tail\\\n"', "tail"),
+    ('"a\\/b"', "a/b"), ('"a\\-b"', "a-b"), ('"\\q"', "q"), ('"it\\\'s"', "it's"), ("'say \\\"hi\\\"'", 'say "hi"'),
+    ('"\\x41\\u0042\\u{43}"', "ABC"), ('"\\u{1F600}"', "\U0001F600"), ('"\\uD83D\\uDE00"', "\U0001F600"),
+    ('"a\\u2028b"', "a\u2028b"), ('"\\t|\\v|\\f|\\b"', "\t|\x0b|\x0c|\x08"), ('"]]\\x3e"', "]]>"), ('"&amp;\\x26"', "&amp;&"),
+]
